@@ -51,7 +51,34 @@ def gen_scenarios(seed, tier):
         d["layers"] = [sc.gen_layer(rng, "throttle")]
         if i % 5 == 4:
             d = gen_blocking(rng, i, d)
+        elif i % 10 == 7:
+            d = gen_count_drop(rng, i, d)
         yield d
+
+
+def gen_count_drop(rng, i, d):
+    """a dynamic count that DROPS below the number of futures already in flight while more are queued: from the next evaluation on
+    nothing may be handed over until enough of the running ones have finished (the limit in force is the value last returned)"""
+    d = dict(d)
+    hi = rng.choice([2, 3, 3, 4])
+    lo = rng.choice([0, 1, 1, hi - 1])
+    script = [hi] * rng.randint(2, 7) + [lo] * rng.randint(1, 4) + [rng.choice([lo, 1, hi])]
+    d["layers"] = [["throttle", {"count": script, "block": False}]]
+    clients = []
+    k = 0
+    for c in range(rng.choice([1, 1, 2])):
+        ops = []
+        for _ in range(rng.randint(3, 6)):
+            ops.append(["submit", "k%d" % k, [[["sleep", rng.choice([1.0, 2.0, 3.0, 5.0])], ["ret", k]]]])
+            k += 1
+            if rng.random() < 0.25:
+                ops.append(["sleep", rng.choice([0.5, 1.0])])
+        clients.append(ops)
+    d["clients"] = clients
+    d["base"] = rng.choice(["simpool2", "simpool2", "simpool1"])
+    d["tail"] = 60.0
+    d["family"] = "count-drop"
+    return d
 
 
 def gen_blocking(rng, i, d):
